@@ -181,6 +181,14 @@ func RunConc(w *tr.Writer, st *ConcStats, tid int, r *rand.Rand, withMissing boo
 						snapshot(ret, root, snap)
 						return "ok"
 					default:
+						if rr.Intn(4) == 0 {
+							// a save whose deadline expires while the store is still writing: the call returns, the abandoned
+							// write goes on by design; nothing is judged here but the absence of a race and of a panic
+							ctx, cancel := context.WithTimeout(context.Background(), 200*time.Microsecond)
+							_ = t.SaveChanges(ctx, &slowDB{NodeDB: util.NewMemoryNodeDB(), d: 3 * time.Millisecond}, false)
+							cancel()
+							return "ok"
+						}
 						if stateDB != nil && rr.Intn(2) == 0 {
 							// save into the state store the trie reads through (not judged as a snapshot: the store is shared)
 							if err := t.SaveChanges(context.Background(), stateDB, false); err != nil {
@@ -248,4 +256,15 @@ func RunConc(w *tr.Writer, st *ConcStats, tid int, r *rand.Rand, withMissing boo
 	st.Ops += len(evs) / 2
 	st.Panics += int(panics)
 	st.Distinct[fmt.Sprintf("%d/%d/%v", ng, len(evs), disjoint)] = true
+}
+
+// slowDB is a node store whose batch write takes a while (a save can then outlive its deadline).
+type slowDB struct {
+	util.NodeDB
+	d time.Duration
+}
+
+func (s *slowDB) MultiPutNode(keys []util.Key, nodes []util.Node) error {
+	time.Sleep(s.d)
+	return s.NodeDB.MultiPutNode(keys, nodes)
 }
